@@ -133,29 +133,32 @@ Definition runner := list Z -> tree -> (ifib -> ifib) -> ifib -> nat -> list (li
                      -> ifib * nat * list (list nat) * list ev.
 
 (* the per-element condition of raw_ok *)
-Definition elem_ok (k' n : nat) (dz : Z) (sp : srcp) (bd : body) (lvl : nat) (path : list Z)
-           (zb za : fib) (cb : Z * tree) : bool :=
+Definition elem_ok (k' n : nat) (dz : Z) (sp : srcp) (bd : body) (rb : list Z -> bool) (lvl : nat)
+           (path : list Z) (zb za : fib) (cb : Z * tree) : bool :=
   let c := fst cb in
   let p := path ++ [c] in
   let leaf := Nat.eqb (S lvl) n in
   let desc := match bd p with ADescend => negb leaf | _ => false end in
+  let refb := is_ref (bd p) && negb leaf in
   match lookup c zb, lookup c za with
   | None, None => true
   | None, Some ta =>
-    negb (is_empty dz ta)
-    && (if desc then raw_ok k' n dz sp bd (S lvl) p (sub_of (snd cb)) [] (sub_of ta) else leaf)
-  | Some tb, None => true
+    (rb p || negb (is_empty dz ta))
+    && (if desc then raw_ok k' n dz sp bd rb (S lvl) p (sub_of (snd cb)) [] (sub_of ta)
+        else leaf || refb)
+  | Some tb, None =>
+    if desc then raw_ok k' n dz sp bd rb (S lvl) p (sub_of (snd cb)) (sub_of tb) [] else leaf
   | Some tb, Some ta =>
-    if desc then raw_ok k' n dz sp bd (S lvl) p (sub_of (snd cb)) (sub_of tb) (sub_of ta)
-    else leaf || tree_eqb tb ta
+    if desc then raw_ok k' n dz sp bd rb (S lvl) p (sub_of (snd cb)) (sub_of tb) (sub_of ta)
+    else leaf || refb || tree_eqb tb ta
   end.
 
-Lemma raw_ok_S k' n dz sp bd lvl path aes zb za :
-  raw_ok (S k') n dz sp bd lvl path aes zb za
+Lemma raw_ok_S k' n dz sp bd rb lvl path aes zb za :
+  raw_ok (S k') n dz sp bd rb lvl path aes zb za
   = (let offc := map fst (a_presents n sp lvl aes) in
      forallb (fun ct => memZ (fst ct) offc || topt_eqb (lookup (fst ct) za) (Some (snd ct))) zb
      && forallb (fun ct => memZ (fst ct) offc || topt_eqb (lookup (fst ct) zb) (Some (snd ct))) za
-     && forallb (elem_ok k' n dz sp bd lvl path zb za) (a_presents n sp lvl aes)).
+     && forallb (elem_ok k' n dz sp bd rb lvl path zb za) (a_presents n sp lvl aes)).
 Proof. reflexivity. Qed.
 
 (* the write performed at the point c :: q' by the element (c, bp) of the loop at rank lvl *)
@@ -165,6 +168,7 @@ Definition wr_elem (k' n : nat) (sp : srcp) (bd : body) (lvl : nat) (path : list
   then match q', bd (path ++ [c]) with [], AWrite w => w | _, _ => WNone end
   else match bd (path ++ [c]) with
        | ADescend => wr_at k' n sp bd (S lvl) (path ++ [c]) (sub_of bp) q'
+       | ARefBelow pt w => if path_eqb q' pt then w else WNone
        | _ => WNone
        end.
 
@@ -207,8 +211,23 @@ Proof.
   unfold ev_elem. rewrite (H (fst cb)) by (left; reflexivity). reflexivity.
 Qed.
 
+(* [rb p]: the body calls getPayloadRef at or below the reference offered at p *)
+Definition rb_ok (bd : body) (rb : list Z -> bool) : Prop :=
+  (forall p, is_ref (bd p) = true -> rb p = true)
+  /\ (forall p c, rb (p ++ [c]) = true -> rb p = true).
+
+Lemma path_eqb_eq : forall a b, path_eqb a b = true -> a = b.
+Proof.
+  induction a as [|x a IH]; intros [|y b] H; cbn [path_eqb] in H; try discriminate; [reflexivity|].
+  apply andb_true_iff in H. destruct H as [H1 H2]. apply Z.eqb_eq in H1. subst. f_equal. apply IH. exact H2.
+Qed.
+
+Lemma path_eqb_pt_eqb : forall a b, path_eqb a b = pt_eqb a b.
+Proof. induction a as [|x a IH]; intros [|y b]; cbn [path_eqb pt_eqb]; try reflexivity; rewrite IH; reflexivity. Qed.
+
 Section Nest.
-  Variables (n : nat) (dz : Z) (sp : srcp) (bd : body).
+  Variables (n : nat) (dz : Z) (sp : srcp) (bd : body) (rb : list Z -> bool).
+  Hypothesis Hrb : rb_ok bd rb.
 
   (* what a runner of the loop over the fiber of rank l (k = n - l levels to go) guarantees *)
   Definition RS (l k : nat) (R : runner) : Prop :=
@@ -220,8 +239,9 @@ Section Nest.
       /\ (forall q, length q = k ->
             lookup_i dz q es' = apply_wr (wr_at k n sp bd l path (sub_of bp) q) (lookup_i dz q es))
       /\ (forall c, ~ In c (map fst (a_presents n sp l (sub_of bp))) -> assoc c es' = assoc c es)
-      /\ (forall c t, assoc c es = None -> assoc c es' = Some t -> i_is_empty dz t = false)
-      /\ raw_ok k n dz sp bd l path (sub_of bp) (efib es) (efib es') = true
+      /\ (forall c t, assoc c es = None -> assoc c es' = Some t ->
+            i_is_empty dz t = false \/ rb (path ++ [c]) = true)
+      /\ raw_ok k n dz sp bd rb l path (sub_of bp) (efib es) (efib es') = true
       /\ map ev3 (snd r) = exp_evs k n dz sp bd l path (sub_of bp) (efib es).
 
   Variables (k' : nat) (inner : runner) (lvl : nat) (path : list Z).
@@ -323,7 +343,7 @@ Section Nest.
   Qed.
 
   Lemma body_run_leaf plug c bp es1 i v nx1 rk1 :
-    body_run bd inner path plug c bp es1 i (ILeaf v) nx1 rk1
+    body_run n dz bd inner lvl path plug c bp es1 i (ILeaf v) nx1 rk1
     = (ILeaf (apply_wr (match bd (path ++ [c]) with AWrite w => w | _ => WNone end) v), nx1, rk1, []).
   Proof. unfold body_run. destruct (bd (path ++ [c])); reflexivity. Qed.
 
@@ -401,8 +421,9 @@ Section Nest.
     /\ (forall q', length q' = k' ->
           lookup_i dz (c :: q') es3
           = apply_wr (wr_elem k' n sp bd lvl path c bp q') (lookup_i dz (c :: q') es))
-    /\ (forall t, assoc c es = None -> assoc c es3 = Some t -> i_is_empty dz t = false)
-    /\ elem_ok k' n dz sp bd lvl path (efib es) (efib es3) (c, bp) = true
+    /\ (forall t, assoc c es = None -> assoc c es3 = Some t ->
+          i_is_empty dz t = false \/ rb (path ++ [c]) = true)
+    /\ elem_ok k' n dz sp bd rb lvl path (efib es) (efib es3) (c, bp) = true
     /\ map ev3 (snd r) = ev_elem k' n dz sp bd lvl path (efib es) (c, bp).
   Proof.
     intros Hleaf Hwf Hbp. cbv zeta. unfold step2.
@@ -413,6 +434,7 @@ Section Nest.
     rewrite Hn1.
     assert (Hlt : (S lvl < n)%nat) by (apply Nat.eqb_neq in Hleaf; lia).
     assert (Hk1 : (0 < k')%nat) by lia.
+    destruct Hrb as [Hrb1 Hrb2].
     assert (Hzp : exists id ow sub,
                match assoc c es with Some p => p | None => zdef nx end = INode id ow sub
                /\ wf_fib n (S lvl) sub = true /\ (assoc c es = None -> sub = [])).
@@ -425,33 +447,64 @@ Section Nest.
     destruct Hzp as (id & ow & sub & Hzp & Hwsub & Hsubnil). rewrite Hzp in *.
     set (p := path ++ [c]) in *.
     set (isdesc := match bd p with ADescend => true | _ => false end).
-    assert (Hwre : forall q', wr_elem k' n sp bd lvl path c bp q'
-                   = if isdesc then wr_at k' n sp bd (S lvl) p (sub_of bp) q' else WNone).
-    { intros q'. unfold wr_elem, isdesc. rewrite Hleaf. fold p. destruct (bd p); reflexivity. }
     assert (Hbody : exists sub' nx2 rk2 evs,
-      body_run bd inner path plug c bp es1 i (INode id ow sub) nx1 rk1 = (INode id ow sub', nx2, rk2, evs)
+      body_run n dz bd inner lvl path plug c bp es1 i (INode id ow sub) nx1 rk1 = (INode id ow sub', nx2, rk2, evs)
       /\ wf_fib n (S lvl) sub' = true
       /\ (forall q', length q' = k' ->
             lookup_i dz q' sub' = apply_wr (wr_elem k' n sp bd lvl path c bp q') (lookup_i dz q' sub))
-      /\ (forall c1 t1, assoc c1 sub = None -> assoc c1 sub' = Some t1 -> i_is_empty dz t1 = false)
-      /\ (if isdesc then raw_ok k' n dz sp bd (S lvl) p (sub_of bp) (efib sub) (efib sub') = true
-          else sub' = sub)
+      /\ (forall c1 t1, assoc c1 sub = None -> assoc c1 sub' = Some t1 ->
+            i_is_empty dz t1 = false \/ rb p = true)
+      /\ (if isdesc then raw_ok k' n dz sp bd rb (S lvl) p (sub_of bp) (efib sub) (efib sub') = true
+          else is_ref (bd p) = true \/ sub' = sub)
       /\ map ev3 evs = if isdesc then exp_evs k' n dz sp bd (S lvl) p (sub_of bp) (efib sub) else []).
-    { unfold body_run. fold p. unfold isdesc in *. destruct (bd p) eqn:Hbd.
-      - exists sub, nx1, rk1, []. split; [reflexivity|]. split; [exact Hwsub|].
-        split; [intros q' _; rewrite Hwre; reflexivity|].
-        split; [intros c1 t1 H1 H2; rewrite H1 in H2; discriminate|]. split; reflexivity.
-      - exists sub, nx1, rk1, []. split; [reflexivity|]. split; [exact Hwsub|].
-        split; [intros q' _; rewrite Hwre; reflexivity|].
-        split; [intros c1 t1 H1 H2; rewrite H1 in H2; discriminate|]. split; reflexivity.
+    { assert (Hsame : forall (Hnd : isdesc = false)
+                (Hw0 : forall q', length q' = k' -> wr_elem k' n sp bd lvl path c bp q' = WNone),
+        exists sub' nx2 rk2 evs,
+          (INode id ow sub, nx1, rk1, @nil ev) = (INode id ow sub', nx2, rk2, evs)
+          /\ wf_fib n (S lvl) sub' = true
+          /\ (forall q', length q' = k' ->
+                lookup_i dz q' sub' = apply_wr (wr_elem k' n sp bd lvl path c bp q') (lookup_i dz q' sub))
+          /\ (forall c1 t1, assoc c1 sub = None -> assoc c1 sub' = Some t1 ->
+                i_is_empty dz t1 = false \/ rb p = true)
+          /\ (if isdesc then raw_ok k' n dz sp bd rb (S lvl) p (sub_of bp) (efib sub) (efib sub') = true
+              else is_ref (bd p) = true \/ sub' = sub)
+          /\ map ev3 evs = if isdesc then exp_evs k' n dz sp bd (S lvl) p (sub_of bp) (efib sub) else []).
+      { intros Hnd Hw0. exists sub, nx1, rk1, []. split; [reflexivity|]. split; [exact Hwsub|].
+        split; [intros q' Hq'; rewrite (Hw0 q' Hq'); reflexivity|].
+        split; [intros c1 t1 H1 H2; rewrite H1 in H2; discriminate|].
+        rewrite Hnd. split; [right; reflexivity|reflexivity]. }
+      unfold body_run. fold p. unfold wr_elem in *. fold p in Hsame. fold p. rewrite Hleaf in *.
+      unfold isdesc in *. destruct (bd p) as [|w0| |pt w0] eqn:Hbd.
+      - apply Hsame; reflexivity.
+      - apply Hsame; reflexivity.
       - pose proof (Hinner p bp (fun s => plug (set_nth i (c, INode id ow s) es1)) sub nx1 rk1
                            Hlt Hwsub Hbp) as Hin. cbv zeta in Hin.
         destruct (inner p bp (fun s => plug (set_nth i (c, INode id ow s) es1)) sub nx1 rk1)
           as [[[sub' nx2] rk2] evs] eqn:Hrun.
         cbn [fst snd] in Hin. destruct Hin as (Hi1 & Hi2 & Hi3 & Hi4 & Hi5 & Hi6).
         exists sub', nx2, rk2, evs. split; [reflexivity|]. split; [exact Hi1|].
-        split; [intros q' Hq'; rewrite Hwre; apply Hi2; exact Hq'|].
-        split; [exact Hi4|]. split; [exact Hi5|exact Hi6]. }
+        split; [exact Hi2|].
+        split.
+        { intros c1 t1 H1 H2. destruct (Hi4 c1 t1 H1 H2) as [Hl|Hr]; [left; exact Hl|].
+          right. exact (Hrb2 p c1 Hr). }
+        split; [exact Hi5|exact Hi6].
+      - destruct (Nat.eqb (S lvl + length pt) n) eqn:Elen.
+        + apply Nat.eqb_eq in Elen.
+          assert (Hlp : length pt = (n - S lvl)%nat) by lia.
+          pose proof (get_ref_wf n dz w0 pt (S lvl) sub nx1 rk1 Hlt Hwsub) as Hgw.
+          destruct (get_ref_lookup n dz w0 pt (S lvl) sub nx1 rk1 Hlt Hwsub Hlp) as [_ Hgl].
+          destruct (get_ref n dz w0 (S lvl) pt sub nx1 rk1) as [[[sub' nx2] rk2] rr] eqn:Hg.
+          cbn [fst snd] in *.
+          exists sub', nx2, rk2, []. split; [reflexivity|]. split; [exact Hgw|].
+          split.
+          { intros q' Hq'. rewrite (Hgl q') by lia. change (pt_eqb q' pt) with (path_eqb q' pt).
+            destruct (path_eqb q' pt) eqn:E; [|reflexivity].
+            apply path_eqb_eq in E. subst q'. reflexivity. }
+          split; [intros c1 t1 _ _; right; apply Hrb1; rewrite Hbd; reflexivity|].
+          split; [left; reflexivity|reflexivity].
+        + apply Hsame; [reflexivity|].
+          intros q' Hq'. destruct (path_eqb q' pt) eqn:E; [|reflexivity].
+          apply path_eqb_eq in E. subst q'. apply Nat.eqb_neq in Elen. lia. }
     destruct Hbody as (sub' & nx2 & rk2 & evs & Hrun & Hw' & Hv' & Hn' & Hr' & He').
     rewrite Hrun.
     assert (Hzw' : wf_i n (S lvl) (INode id ow sub') = true).
@@ -481,28 +534,33 @@ Section Nest.
       destruct rm eqn:Erm; [|reflexivity].
       symmetry in Hrm. apply andb_true_iff in Hrm. destruct Hrm as [_ El].
       apply Nat.eqb_eq in El. destruct sub'; [|discriminate]. reflexivity. }
-    assert (HN : forall t, assoc c es = None -> assoc c es3 = Some t -> i_is_empty dz t = false).
+    assert (HN : forall t, assoc c es = None -> assoc c es3 = Some t ->
+                 i_is_empty dz t = false \/ rb p = true).
     { intros t Ha Ht. rewrite Ha3, Z.eqb_refl in Ht. rewrite Hrm, (Hexn Ha) in Ht. cbn [negb andb] in Ht.
       destruct sub' as [|[c1 t1] rest]; [discriminate|]. cbn [length Nat.eqb] in Ht.
       inversion Ht; subst t. cbn [i_is_empty forallb snd].
-      rewrite (Hn' c1 t1); [reflexivity|rewrite (Hsubnil Ha); reflexivity|].
+      destruct (Hn' c1 t1) as [Hl|Hr]; [rewrite (Hsubnil Ha); reflexivity| |left; rewrite Hl; reflexivity|right; exact Hr].
       cbn [assoc]. rewrite Z.eqb_refl. reflexivity. }
     split; [exact HN|].
     split.
     { unfold elem_ok. cbn [fst snd]. fold p. rewrite Hleaf. cbn [negb].
       assert (Hd : match bd p with ADescend => true | _ => false end = isdesc) by reflexivity.
-      rewrite Hd. rewrite !lookup_efib, Ha3, Z.eqb_refl.
+      rewrite Hd. rewrite andb_true_r. rewrite !lookup_efib, Ha3, Z.eqb_refl.
       destruct (assoc c es) as [p0|] eqn:Ha; cbn [option_map].
       - subst p0. rewrite Hrm, (Hexs _ eq_refl). cbn [negb andb option_map].
         rewrite !erase_node. cbn [sub_of]. destruct isdesc; [exact Hr'|].
-        subst sub'. cbn [orb]. apply tree_eqb_refl.
+        cbn [orb]. destruct Hr' as [Hr'|Hr']; [rewrite Hr'; reflexivity|].
+        subst sub'. rewrite tree_eqb_refl. apply orb_true_r.
       - destruct rm eqn:Erm; cbn [option_map]; [reflexivity|].
-        rewrite is_empty_erase. rewrite (HN (INode id ow sub') eq_refl)
-          by (rewrite Ha3, Z.eqb_refl; reflexivity).
-        cbn [negb andb]. rewrite erase_node. cbn [sub_of].
+        rewrite is_empty_erase.
+        assert (Hres : (rb p || negb (i_is_empty dz (INode id ow sub'))) = true).
+        { destruct (HN (INode id ow sub') eq_refl) as [Hl|Hr];
+            [rewrite Ha3, Z.eqb_refl; reflexivity|rewrite Hl; apply orb_true_r|rewrite Hr; reflexivity]. }
+        rewrite Hres. cbn [andb]. rewrite erase_node. cbn [sub_of].
         destruct isdesc.
         + rewrite (Hsubnil eq_refl) in Hr'. exact Hr'.
-        + exfalso. subst sub'. rewrite (Hsubnil eq_refl) in Hrm. rewrite (Hexn eq_refl) in Hrm.
+        + cbn [orb]. destruct Hr' as [Hr'|Hr']; [exact Hr'|].
+          exfalso. subst sub'. rewrite (Hsubnil eq_refl) in Hrm. rewrite (Hexn eq_refl) in Hrm.
           cbn in Hrm. discriminate Hrm. }
     cbn [map]. unfold ev_elem, ev3 at 1. cbn [e_path e_a e_z fst snd]. fold p. rewrite Hleaf.
     rewrite lookup_efib.
@@ -521,22 +579,24 @@ Section Nest.
     /\ (forall q', length q' = k' ->
           lookup_i dz (c :: q') es3
           = apply_wr (wr_elem k' n sp bd lvl path c bp q') (lookup_i dz (c :: q') es))
-    /\ (forall t, assoc c es = None -> assoc c es3 = Some t -> i_is_empty dz t = false)
-    /\ elem_ok k' n dz sp bd lvl path (efib es) (efib es3) (c, bp) = true
+    /\ (forall t, assoc c es = None -> assoc c es3 = Some t ->
+          i_is_empty dz t = false \/ rb (path ++ [c]) = true)
+    /\ elem_ok k' n dz sp bd rb lvl path (efib es) (efib es3) (c, bp) = true
     /\ map ev3 (snd r) = ev_elem k' n dz sp bd lvl path (efib es) (c, bp).
   Proof.
     intros Hlt Hwf Hbp. destruct (Nat.eqb (S lvl) n) eqn:Hleaf.
     - pose proof (step2_leaf plug c bp es nx rk Hleaf Hwf) as H. cbv zeta in *.
       destruct H as (H1 & H2 & H3 & H4 & _ & H6).
-      split; [exact H1|]. split; [exact H2|]. split; [exact H3|]. split; [exact H4|]. split; [|exact H6].
-      unfold elem_ok. cbn [fst snd]. rewrite Hleaf. cbn [negb].
+      split; [exact H1|]. split; [exact H2|]. split; [exact H3|].
+      split; [intros t Ha Ht; left; exact (H4 t Ha Ht)|]. split; [|exact H6].
+      unfold elem_ok. cbn [fst snd]. rewrite Hleaf. cbn [negb]. rewrite andb_false_r.
       assert (Hd : match bd (path ++ [c]) with ADescend => false | _ => false end = false)
         by (destruct (bd (path ++ [c])); reflexivity).
       rewrite Hd. rewrite !lookup_efib.
       destruct (assoc c es) as [p0|] eqn:Ha; cbn [option_map];
         destruct (assoc c (fst (fst (fst (step2 n dz bd inner lvl path plug c bp es nx rk))))) as [t|] eqn:Ht;
         cbn [option_map orb]; try reflexivity.
-      rewrite is_empty_erase, (H4 t eq_refl eq_refl). reflexivity.
+      rewrite is_empty_erase, (H4 t eq_refl eq_refl). cbn [negb]. rewrite orb_true_r. reflexivity.
     - exact (step2_node plug c bp es nx rk Hleaf Hwf Hbp).
   Qed.
 
@@ -549,7 +609,7 @@ Section Nest.
 
   Lemma elem_ok_ext zb za zb' za' cb :
     lookup (fst cb) zb = lookup (fst cb) zb' -> lookup (fst cb) za = lookup (fst cb) za' ->
-    elem_ok k' n dz sp bd lvl path zb za cb = elem_ok k' n dz sp bd lvl path zb' za' cb.
+    elem_ok k' n dz sp bd rb lvl path zb za cb = elem_ok k' n dz sp bd rb lvl path zb' za' cb.
   Proof. intros H1 H2. unfold elem_ok. rewrite H1, H2. reflexivity. Qed.
 
   Lemma loop2_spec plug : forall b es nx rk,
@@ -561,8 +621,9 @@ Section Nest.
     /\ (forall q, ~ In q (map fst b) -> assoc q es' = assoc q es)
     /\ (forall q, length q = S k' ->
           lookup_i dz q es' = apply_wr (wr_loop k' n sp bd lvl path b q) (lookup_i dz q es))
-    /\ (forall c t, assoc c es = None -> assoc c es' = Some t -> i_is_empty dz t = false)
-    /\ forallb (elem_ok k' n dz sp bd lvl path (efib es) (efib es')) b = true
+    /\ (forall c t, assoc c es = None -> assoc c es' = Some t ->
+          i_is_empty dz t = false \/ rb (path ++ [c]) = true)
+    /\ forallb (elem_ok k' n dz sp bd rb lvl path (efib es) (efib es')) b = true
     /\ map ev3 (snd r) = flat_map (ev_elem k' n dz sp bd lvl path (efib es)) b.
   Proof.
     induction b as [|[c0 bp0] b IH]; intros es nx rk Hlt Hwf Hsb Hbw; cbv zeta.
@@ -640,9 +701,10 @@ Proof.
 Qed.
 
 (* ---------- the whole nest, by induction on the number of ranks to go ---------- *)
-Theorem pop_RS n dz sp bd : forall k l, (l + k = n)%nat -> RS n dz sp bd l k (pop k n dz sp bd l).
+Theorem pop_RS n dz sp bd rb : rb_ok bd rb ->
+  forall k l, (l + k = n)%nat -> RS n dz sp bd rb l k (pop k n dz sp bd l).
 Proof.
-  induction k as [|k IH]; intros l Hlk; unfold RS; intros path bp plug es nx rk Hlt Hwf Hbp; [lia|].
+  intros Hrb. induction k as [|k IH]; intros l Hlk; unfold RS; intros path bp plug es nx rk Hlt Hwf Hbp; [lia|].
   destruct bp as [v|aes]; [cbn [wf_tree] in Hbp; discriminate|].
   cbn [wf_tree] in Hbp. apply andb_true_iff in Hbp. destruct Hbp as [Hsa Hka].
   cbn [pop sub_of]. rewrite (offers_presents n sp l aes Hsa).
@@ -650,7 +712,7 @@ Proof.
   rewrite loop1_loop2;
     [|exact Hse|apply a_presents_sorted; exact Hsa|destruct (a_presents n sp l aes) as [|[c ?] ?]; [exact I|lia]].
   assert (Hk : (S l + k = n)%nat) by lia.
-  pose proof (loop2_spec n dz sp bd k (pop k n dz sp bd (S l)) l path Hk (IH (S l) Hk) plug
+  pose proof (loop2_spec n dz sp bd rb Hrb k (pop k n dz sp bd (S l)) l path Hk (IH (S l) Hk) plug
                          (a_presents n sp l aes) es nx rk Hlt Hwf (a_presents_sorted n sp l aes Hsa)
                          (a_presents_wf n sp l aes k Hk Hka)) as H.
   cbv zeta in H.
